@@ -345,6 +345,13 @@ def Acc.add (a : Acc) (i : Int) : Acc := { a with elems := a.elems ++ [i.toNat] 
 /-- `accumulator.signature()`: the sorted duplicate-free indices (`np.flatnonzero` of the array / the sorted set; the two agree by `C01.accumulators_agree`) -/
 def Acc.signature (a : Acc) : List Int := (GambitV.setAccumulate a.elems).map (fun (x : Nat) => (x : Int))
 
+/-- `Bio.Phylo.BaseTree.Clade` as `linkage_to_bio_tree` uses it (a rooted tree is its root clade) -/
+structure Clade where
+  name : Option Nat
+  branch_length : Option Int
+  clades : List Clade
+  deriving Repr, Inhabited
+
 /-- `gambit.classify.GenomeMatch` (reference genomes are indices into the list of genome taxa) -/
 structure GenomeMatch where
   genome : Nat
